@@ -134,12 +134,12 @@ def replay_table(ctx, rec, S, gal_tools):
         except Exception as e:  # noqa - an IndexError is "indexes outside the map"; anything else is no answer at all
             ctx.violation(key + ":raises", "%s on a %dx%d %s map raised %r for a request of shape %s%s"
                           % (name, ny, nx, label, e, lon_a.shape, hist), dict(case, request_shape=list(lon_a.shape)))
-            return
+            return False
         if out.shape != lon_a.shape + colour:
             ctx.violation(key + ":shape", "%s on a %s map of shape %s: request shape %s gives result shape %s, expected %s%s"
                           % (name, label, (ny, nx) + colour, lon_a.shape, out.shape, lon_a.shape + colour, hist),
                           dict(case, request_shape=list(lon_a.shape)))
-            return
+            return False
         val, consistent = decode(out)
         ok = (val[..., None] == want).any(axis=-1) & consistent
         bad = np.argwhere(~ok)
@@ -156,6 +156,8 @@ def replay_table(ctx, rec, S, gal_tools):
                              "containing pixel is" if len(adm) == 1 else "point is on a cell edge and the adjacent pixels are",
                              ", ".join("(row %d, col %d)" % (a // nx, a % nx) for a in adm), o // nx, o % nx, len(bad), ok.size, hist),
                           dict(case, lon=lo, lat=la, expected_value=adm, got_value=o))
+            return False
+        return True
 
     def dec_scalar(out):
         return out.astype(np.int64), np.ones(out.shape, dtype=bool)
@@ -170,16 +172,19 @@ def replay_table(ctx, rec, S, gal_tools):
     def battery(name, make, LONr, LATr, want):
         """one sampler factory, one request grid: maps, request shapes, then the call-history sequence"""
         f_scalar = make(scalar_map)
-        judge_out(name, "scalar", lambda: f_scalar(LONr, LATr), LONr, LATr, want, (), dec_scalar)
-        judge_out(name, "RGB", lambda: make(rgb_map)(LONr, LATr), LONr, LATr, want, (3,), dec_rgb)
-        # other request shapes: transposed grid, a single row, a single point
-        judge_out(name, "RGB", lambda: make(rgb_map)(LONr.T.copy(), LATr.T.copy()), LONr.T.copy(), LATr.T.copy(),
-                  np.transpose(want, (1, 0, 2)), (3,), dec_rgb)
         flat = (1, LONr.size)
-        judge_out(name, "scalar", lambda: f_scalar(LONr.reshape(flat), LATr.reshape(flat)), LONr.reshape(flat), LATr.reshape(flat),
-                  want.reshape(flat + want.shape[2:]), (), dec_scalar)
-        judge_out(name, "scalar", lambda: make(scalar_map.tolist())(LONr[:1, :1], LATr[:1, :1]), LONr[:1, :1], LATr[:1, :1],
-                  want[:1, :1], (), dec_scalar)
+        base_ok = all([
+            judge_out(name, "scalar", lambda: f_scalar(LONr, LATr), LONr, LATr, want, (), dec_scalar),
+            judge_out(name, "RGB", lambda: make(rgb_map)(LONr, LATr), LONr, LATr, want, (3,), dec_rgb),
+            # other request shapes: transposed grid, a single row, a single point
+            judge_out(name, "RGB", lambda: make(rgb_map)(LONr.T.copy(), LATr.T.copy()), LONr.T.copy(), LATr.T.copy(),
+                      np.transpose(want, (1, 0, 2)), (3,), dec_rgb),
+            judge_out(name, "scalar", lambda: f_scalar(LONr.reshape(flat), LATr.reshape(flat)), LONr.reshape(flat), LATr.reshape(flat),
+                      want.reshape(flat + want.shape[2:]), (), dec_scalar),
+            judge_out(name, "scalar", lambda: make(scalar_map.tolist())(LONr[:1, :1], LATr[:1, :1]), LONr[:1, :1], LATr[:1, :1],
+                      want[:1, :1], (), dec_scalar)])
+        if not base_ok:
+            return          # already wrong without any history: reported above, nothing more to learn from sequences
         # ---- every point's answer is independent of the call history.  Request B has the shape, the first and the last
         # element (hence every order-insensitive digest too) of request A but its interior points are permuted; both are
         # asked of two live sampler objects built from different maps, alternately, and once through the same array
@@ -205,7 +210,10 @@ def replay_table(ctx, rec, S, gal_tools):
             judge_out(name, "second", lambda: f_other(LONr, LATr), LONr, LATr, want, (), dec_other, "history",
                       h % "two samplers called alternately")
             buf_lon, buf_lat = LONr.copy(), LATr.copy()
-            f_scalar(buf_lon, buf_lat)
+            try:
+                f_scalar(buf_lon, buf_lat)
+            except Exception:  # noqa - judged by the calls above
+                pass
             buf_lon[...] = LONb
             buf_lat[...] = LATb
             judge_out(name, "scalar", lambda: f_scalar(buf_lon, buf_lat), buf_lon, buf_lat, wantb, (), dec_scalar, "history",
